@@ -58,6 +58,10 @@ HANDWRITTEN = [
     ("clean.sql", "select a from tbl\n"),
     ("empty.sql", ""),
     ("comment_only.sql", "-- nothing here\n"),
+    # characters that str.splitlines() treats as line boundaries but that are NOT newlines for line/column purposes (seed C23_C)
+    ("u2028_in_comment.sql", "-- pasted from a doc:\u2028 totals per customer\nSELECT a  from tbl\n"),
+    ("formfeed_vt_in_comment.sql", "-- page\x0c break \x0b tab \x85 nel \x1c fs\nSELECT a  from tbl\nwhere x  = 1\n"),
+    ("u2029_in_string.sql", "select 'a\u2029b' as c,\n   b from tbl\nwhere x  = 1\n"),
 ]
 
 
